@@ -228,6 +228,19 @@ def replay_set(run, model, P, tvs):
     for k in np.nonzero(badm)[0]:
         run.violation("f/motor_dot/sign", "a motor speed does not move toward its command (or moves while on command)", data(k))
     run.count("clause_motor", 4 * n)
+    # both sides of the spin-up / spin-down switch, arbitrarily close to the command (off the lattice: the law is
+    # homogeneous in cmd - Omega, so the comparison is relative): d Omega/dt = (cmd - Omega)/tau_up|down
+    for sgn in (np.array([1.0, -1.0, 1.0, -1.0]), np.array([-1.0, 1.0, -1.0, 1.0])):
+        Ub = X[13:17] + sgn[:, None] * 2.0 ** -20
+        (Fb,) = batch_call(f, [X, Ub, pc])
+        e = Ub - X[13:17]
+        tau = np.where(e > 0, fr(P["tau_up"]), fr(P["tau_down"]))
+        with np.errstate(invalid="ignore"):
+            badb = ~np.all(np.abs(Fb[13:17] - e / tau) <= TOL * np.abs(e / tau), axis=0)
+        for k in np.nonzero(badb)[0]:
+            run.violation("f/motor_dot/boundary", "command within 1e-6 of the speed: derivative is not (cmd - Omega)/tau of the direction",
+                          data(k, u=Ub[:, k].tolist(), f=Fb[:, k].tolist()))
+        run.count("evaluations", n)
 
     equivariance(run, model, P, tvs, pvec, U, X, Uc, F, Acc, "", data)
 
@@ -256,7 +269,7 @@ def replay_set(run, model, P, tvs):
             bad = ~(dota <= TOL * np.maximum(1.0, np.max(np.abs(Fa[6:10]), axis=0)))
         for k in np.nonzero(bad)[0]:
             run.violation("f/quaternion_dot/norm", "q . q' != 0 (drag and damping on)", data_a(k))
-        ok, _ = within(Fa[13:17], E[13:17])
+        ok, _ = within(Fa[13:17], F[13:17])
         for k in np.nonzero(~ok)[0]:
             run.violation("f/motor_dot/aero", "motor lag changes with the aerodynamic coefficients", data_a(k))
         equivariance(run, model, P, tvs, pa, U, X, Uc, Fa, Aa, "+aero", data_a)
